@@ -22,6 +22,56 @@ Definition stop_hint (s : dstate) : Z :=
   | _ => 0
   end.
 
+(* ---- the header-staging stage ---- *)
+Lemma hdr_stage_bound bdec dict p s g res :
+  d_stage s = StoreFrameHeader -> wf s -> pre (d_header s) (d_tmpInSize s) = p ->
+  bytes_ok p = true -> bytes_ok g = true ->
+  frame_decode bdec false dict (p ++ g) = Some res ->
+  (d_tmpInTarget s - d_tmpInSize s) + FD_BHSize <= zlen g.
+Proof.
+  intros Hs (_ & _ & SI) Hp Hbp Hbg G. unfold stage_inv in SI. rewrite Hs in SI. destruct SI as (Sz & Tg & HE).
+  assert (Lp : zlen p = d_tmpInSize s) by (rewrite <- Hp; apply pre_length; lia).
+  assert (Hall : bytes_ok (p ++ g) = true) by (rewrite bytes_ok_app, Hbp, Hbg; reflexivity).
+  remember (p ++ g) as all eqn:Eall.
+  assert (La : zlen all = zlen p + zlen g) by (rewrite Eall; apply zlen_app).
+  unfold frame_decode in G.
+  destruct (take 4 all) as [[mg r]|] eqn:T; [|discriminate].
+  destruct (le_val mg =? MAGIC) eqn:EM; [|discriminate]. apply Z.eqb_eq in EM.
+  destruct (parse_desc r) as [[d r1]|] eqn:PD; [|discriminate].
+  destruct (bsid_size (f_bsid d)) as [maxb|]; [|discriminate].
+  assert (L1 : 4 <= zlen r1).
+  { cbn [blocks] in G. destruct (take 4 r1) as [[szb r2]|] eqn:T1; [|discriminate].
+    apply take_zlen in T1. pose proof (zlen_nonneg r2). lia. }
+  destruct all as [|m0 [|m1 [|m2 [|m3 rest]]]]; try discriminate T.
+  cbn in T. inversion T; subst mg r. clear T.
+  assert (Hbr : bytes_ok rest = true).
+  { unfold bytes_ok in *. cbn [forallb] in Hall. repeat (apply andb_prop in Hall; destruct Hall as [_ Hall]). exact Hall. }
+  pose proof (headerSize_spec m0 m1 m2 m3 rest d r1 Hbr EM PD) as HS.
+  destruct rest as [|FLG rest']; [cbn in PD; discriminate PD|].
+  unfold headerSize in HS.
+  replace (zlen (m0 :: m1 :: m2 :: m3 :: FLG :: rest') <? FD_MIN_SIZE_TO_KNOW_HEADER_LENGTH) with false in HS
+    by (symmetry; apply Z.ltb_ge; unfold zlen; cbn [length]; unfold FD_MIN_SIZE_TO_KNOW_HEADER_LENGTH; lia).
+  assert (Erd : rd32 (m0 :: m1 :: m2 :: m3 :: FLG :: rest') = FD_MAGICNUMBER).
+  { unfold rd32, ztake. change (firstn (Z.to_nat 4) (m0 :: m1 :: m2 :: m3 :: FLG :: rest')) with [m0; m1; m2; m3].
+    rewrite EM. reflexivity. }
+  rewrite Erd in HS. cbn [negb nth_error] in HS.
+  change (Z.land FD_MAGICNUMBER SKIP_MASK =? FD_MAGIC_SKIPPABLE_START) with false in HS.
+  change (FD_MAGICNUMBER =? FD_MAGICNUMBER) with true in HS. cbn [negb] in HS.
+  assert (Hfh : forall a b, FD_minFHSize <= fh_size a b).
+  { intros a b. unfold fh_size. destruct (a =? 0), (b =? 0); lia. }
+  unfold FD_BHSize.
+  destruct HE as [E7 | (Zh & L7 & _ & FLG' & bm & bc & cs & cc & di & Hn & Hf & Ht)].
+  - pose proof (Hfh (Z.land (Z.shiftr FLG 3) 1) (Z.land FLG 1)). lia.
+  - assert (Ep : p = d_header s) by (rewrite <- Hp; apply pre_full; exact Zh).
+    assert (FLG' = FLG).
+    { assert (N : nth_error (p ++ g) 4 = Some FLG').
+      { rewrite nth_error_app1; [rewrite Ep; exact Hn|]. unfold zlen in Lp. unfold FD_minFHSize in L7. lia. }
+      rewrite <- Eall in N. cbn in N. congruence. }
+    subst FLG'. unfold flg_decode in Hf. cbv zeta in Hf.
+    destruct (negb _); [discriminate|]. destruct (negb _); [discriminate|].
+    inversion Hf; subst. lia.
+Qed.
+
 Section Bound.
 Variable bdec : list byte -> list byte -> option (list byte).
 Variable dict : list byte.
@@ -63,11 +113,10 @@ Qed.
 
 Theorem hint_state_bound : forall p O s g res,
   CInv bdec false dict p O s -> wf s ->
-  frame_decode bdec false dict (p ++ g) = Some res ->
-  d_stage s <> StoreFrameHeader ->
+  frame_decode bdec false dict (p ++ g) = Some res -> bytes_ok g = true ->
   stop_hint s <= zlen g.
 Proof.
-  intros p O s g res C Hwf G Hst.
+  intros p O s g res C Hwf G Hbg.
   pose proof (zlen_nonneg g) as Hg.
   unfold stop_hint.
   destruct C as [Hs -> -> Hrem Hh Hsk | Hs -> Hrem Hh Hsk Hp Hbp | d maxb Hs -> B HK | d maxb Hs B HK
@@ -75,7 +124,8 @@ Proof.
                 | d maxb acc0 data t Hs -> B EB Hd Hx Ht Hbt HK | d maxb n Hs B Htg Hn HK
                 | d maxb n t Hs B Htg Hn Ht Hbt HK | d maxb acc0 Hs HOe B Hm HK | d maxb Hs B HK
                 | d maxb t Hs B EC ER Ht Hbt HK | -> HS]; try (rewrite Hs); try lia.
-  - congruence.
+  - (* StoreFrameHeader *)
+    exact (hdr_stage_bound bdec dict p s g res Hs Hwf Hp Hbp Hbg G).
   - (* StoreBlockHeader *)
     destruct Hwf as (_ & _ & SI). unfold stage_inv in SI. rewrite Hs in SI. destruct SI as [_ SI].
     apply (proj2 HK) in G. apply E_header_len in G. rewrite zlen_app in G.
@@ -278,12 +328,11 @@ Theorem call_hint_within_frame : forall s src cap o p O g res l' h,
   o_skip o = false -> wf s -> BInv bdec false dict p O s -> bytes_ok src = true -> 0 <= cap ->
   frame_decode bdec false dict (p ++ src ++ g) = Some res ->
   run bdec (call_fuel src) o (mkL (set_skip s (d_skip s || o_skip o)) src 0 [] cap) = (l', FStop h) ->
-  0 < h ->
-  d_stage (l_s l') <> StoreFrameHeader ->
+  0 < h -> bytes_ok g = true ->
   snd (decompress bdec s src cap o) = mkR (l_used l') (zlen (l_out l')) (l_out l') h false /\
   h <= zlen src + zlen g - l_used l'.
 Proof.
-  intros s src cap o p O g res l' h Ho Hwf HB Hb Hc G HR Hh Hst.
+  intros s src cap o p O g res l' h Ho Hwf HB Hb Hc G HR Hh Hbg.
   pose proof (call_chunk bdec false dict s src cap o p O Ho Hwf HB Hb Hc) as CC. cbv zeta in CC.
   unfold decompress in *. rewrite HR in *. cbn [fst snd r_ret r_out r_consumed] in CC.
   split; [reflexivity|].
@@ -303,7 +352,9 @@ Proof.
     exact (skinv_not_valid bdec dict _ _ _ _ HS G'). }
   destruct HH as [C | (Pn & _ & AS)].
   - rewrite Eh.
-    pose proof (hint_state_bound bdec dict (p ++ x) _ (l_s l') (rest ++ g) res C Hwf' G' Hst) as B.
+    assert (Hbrg : bytes_ok (rest ++ g) = true).
+    { rewrite E1, bytes_ok_app in Hb. apply andb_prop in Hb. rewrite bytes_ok_app, (proj2 Hb), Hbg. reflexivity. }
+    pose proof (hint_state_bound bdec dict (p ++ x) _ (l_s l') (rest ++ g) res C Hwf' G' Hbrg) as B.
     rewrite zlen_app in B. rewrite E1, zlen_app. lia.
   - (* still at the very start of the frame: the stage is GetFrameHeader, which never stops with a hint *)
     destruct AS as (St & _). rewrite Eh. unfold stop_hint. rewrite St. pose proof (zlen_nonneg g).
